@@ -197,7 +197,7 @@ def run_e2(res, tier):
         if pid in cp.failed:
             continue
         for k in ENUMK:
-            for d in ('{"nope":{}}', '{"nope":null}', '{"":{}}', '{}'):
+            for d in ('{"nope":{}}', '{"nope":null}', '{"":{}}', '{}', '{"nope":1.5}', '{"nope":{"a":1.5}}', '{"nope":[1e3]}', '{"nope":-0.0}', '1.5', '{"nope":{"a":{"b":[2.5]}}}'):
                 ecases.append({"prog": pid, "op": "decode", "kind": k, "part": "wrapper", "input": d})
     for ec, o in zip(ecases, cp.run_cases(ecases)):
         res.add(states=1, transitions=1, traces=1, evaluations=1)
